@@ -22,7 +22,7 @@ var Introducers = []string{"Add", "AddRaw", "Set", "SetRaw", "WriteCas", "WriteC
 	"WriteWithXattrs", "UpdateXattrs", "WriteResurrectionWithXattrs", "WriteUpdateWithXattrs", "SetWithMeta", "WriteSubDoc-then-Touch", "Add-over-tombstone", "Set-over-tombstone"}
 
 // Order classes: how the deadline under test relates to the other deadlines / writes of the bucket.
-var Orders = []string{"only", "later-first", "later-after", "shorten", "lengthen", "preserve", "clear", "delete-clears", "past", "sibling-collection", "touch-shorten", "touch-lengthen", "recreated-collection", "after-empty-sweep", "sibling-handle-closed"}
+var Orders = []string{"only", "later-first", "later-after", "shorten", "lengthen", "preserve", "clear", "delete-clears", "past", "sibling-collection", "touch-shorten", "touch-lengthen", "recreated-collection", "after-empty-sweep", "sibling-handle-closed", "earlier-deadline-dropped"}
 
 type Spec struct {
 	Disk       bool
@@ -336,6 +336,19 @@ func RunOne(tmp string, s Spec) (res Result) {
 		}
 		t0, t1, err = introduce(c, s.Intro, key, lead, s.Relative)
 		setWant(lead)
+	case "earlier-deadline-dropped":
+		// the bucket's earliest deadline belongs to a document of the other collection, which is dropped before it
+		// comes due: the sweep armed for it finds nothing to do - and the target's deadline must still be served
+		s.Coll = 0
+		res.Spec = s
+		c, other = cols[0], cols[1]
+		_ = other.SetRaw(key, uint32(time.Now().Unix())+1, nil, []byte("sooner, in the collection that goes away")) // same key name
+		t0, t1, err = introduce(c, s.Intro, key, lead, s.Relative)
+		setWant(lead)
+		if derr := b.DropDataStore(collB); derr != nil {
+			res.Incon = "drop: " + derr.Error()
+			return
+		}
 	case "sibling-handle-closed":
 		// a second handle of the bucket is opened and closed again (before or after the deadline is introduced): the
 		// bucket lives on through the first handle, and so must its expiry timer
